@@ -67,6 +67,9 @@ def predicate(name, r):
                 if e.get("k") == "c.dadd" or (e.get("k") in ("o.new", "a.new") and e.get("t") == "dcnt") or "DedupCounter" in (e.get("y") or ""):
                     return True
         return False
+    if name == "raw_remove_and_deactivate":
+        flags = [st.get("flag") for st in trace if st.get("op") == "raw"]
+        return "remove" in flags and "deactivate" in flags
     if name == "undo_after_sync":
         synced = False
         for st in trace:
